@@ -2,6 +2,7 @@ package main
 
 import (
 	"fmt"
+	"math"
 	"math/rand"
 	"runtime"
 	"strings"
@@ -66,6 +67,8 @@ func c07Round(c *Ctx, be string, round int, seed int64) bool {
 	regId := fixedId(999999)
 	reg := d.NewDocumentOf(map[string]interface{}{"_id": regId, "v": int64(0), "tag": "reg"})
 	db.Insert("s", reg)
+	db.CreateIndex("s", "x")
+	db.CreateIndex("s", "ver")
 	// documents every writer tries to delete by id: concurrent deletes of the same id must count once
 	victims := []string{}
 	vdocs := []*d.Document{}
@@ -220,6 +223,34 @@ func c07Round(c *Ctx, be string, round int, seed int64) bool {
 			}()
 			lastReg := int64(-1)
 			for atomic.LoadInt32(&stop) == 0 {
+				// reads THROUGH an index while writers add and move entries of the same index: every document handed back
+				// satisfies the criterion (whatever state a query computes per call - range bounds, key buffers - is its own)
+				for _, f := range []string{"x", "ver"} {
+					bound := int64(1)
+					rdocs, rerr := db.FindAll(query.NewQuery("s").Where(query.Field(f).LtEq(bound)).Sort(query.SortOption{Field: f, Direction: 1}))
+					if rerr != nil {
+						if isConflict(rerr) {
+							continue
+						}
+						fail("FindAll through an index failed: " + rerr.Error())
+						return
+					}
+					prev := int64(math.MinInt64)
+					for _, doc := range rdocs {
+						v, isNum := doc.Get(f).(int64)
+						if doc.Has(f) && doc.Get(f) != nil && (!isNum || v > bound) {
+							fail(fmt.Sprintf("a query %s <= %d returned a document with %s = %v", f, bound, f, doc.Get(f)))
+							return
+						}
+						if isNum {
+							if v < prev {
+								fail(fmt.Sprintf("a query sorted by %s returned %d after %d", f, v, prev))
+								return
+							}
+							prev = v
+						}
+					}
+				}
 				docs, err := db.FindAll(query.NewQuery("s"))
 				if err != nil {
 					if isConflict(err) {
